@@ -557,6 +557,10 @@ def make_mesh(c):
         m = Mesh2D(tuple(Point2D(x, y) for (x, y) in c['verts']), tuple(c['faces']), cols)
     else:
         pl = G.rand_plane(random.Random(c['plane_seed']))
+        if c.get('unit'):
+            # a small part (millimetres and below): plane through the world origin, every
+            # coordinate far below 1
+            pl = Plane(pl.n, Point3D(0, 0, 0))
         pts = []
         for (x, y), zz in zip(c['verts'], c['z']):
             p = pl.xy_to_xyz(Point2D(x, y))
@@ -780,6 +784,13 @@ def interop_case(rng, tag):
     c['triangulate_quads'] = rng.random() < 0.3
     c['via'] = rng.choice(['mesh', 'mesh', 'class'])
     c['name'] = rng.choice(['m', 'mesh_1', 'Test.obj', 'x.OBJ', 'poly'])
+    if rng.random() < 0.3:
+        # the same mesh as a small part: all coordinates scaled far below one length unit
+        u = rng.choice([1e-2, 1e-3, 1e-5])
+        x0, y0 = c['verts'][0]
+        c['verts'] = [((x - x0) * u, (y - y0) * u) for (x, y) in c['verts']]
+        c['z'] = [zz * u for zz in c['z']]
+        c['unit'] = u
     # odd magnitudes: tiny, huge, negative zero, many digits
     if rng.random() < 0.3:
         k = rng.randrange(len(c['verts']))
